@@ -218,6 +218,15 @@ pub fn suite_pkgrules(ctx: &Ctx, thorough: bool) {
                         Ok(Ok(p2)) if p2 == p && p2.to_string() == p.to_string() => {},
                         other => ctx.violate("C10.rebuild", "re-building is the identity", inp(), format!("{:?}", other.map(|r| r.map(|q| Obs::of(&q)))), format!("{:?}", Obs::of(&p))),
                     }
+                    // a name set again on an existing value, differing from the current one in ASCII case only
+                    let flipped: String = name.chars().map(|c| if c.is_ascii_lowercase() { c.to_ascii_uppercase() } else if c.is_ascii_uppercase() { c.to_ascii_lowercase() } else { c }).collect();
+                    if flipped != *name {
+                        let wantf = match tn { "nuget" => refimpl::lower(&flipped), "pypi" => refimpl::pypi_norm(&flipped), _ => flipped.clone() };
+                        match guarded(|| p.clone().into_builder().with_name(flipped.as_str()).build()) {
+                            Ok(Ok(p3)) if p3.name() == wantf => {},
+                            other => ctx.violate("C08.name", "the type's name rule (builder, name set again on an existing value)", json!({"type": tn, "name": name, "then": flipped}), format!("{:?}", other.map(|r| r.map(|q| q.name().to_owned()))), wantf),
+                        }
+                    }
                     // same through the parser
                     let text = format!("pkg:{}/ns/{}@1#s", tn, refimpl::enc(Comp::Name, name));
                     if let Ok(r) = parse_typed(&text) {
@@ -398,8 +407,34 @@ mod recser {
     impl std::fmt::Display for NotAString { fn fmt(&self, f: &mut std::fmt::Formatter<'_>) -> std::fmt::Result { write!(f, "{}", self.0) } }
     impl std::error::Error for NotAString {}
     impl ser::Error for NotAString { fn custom<T: std::fmt::Display>(m: T) -> Self { NotAString(m.to_string()) } }
-    pub struct Rec { pub human: bool }
     macro_rules! refuse { ($($m:ident($t:ty)),*) => { $( fn $m(self, _v: $t) -> Result<String, NotAString> { Err(NotAString(stringify!($m).into())) } )* } }
+    /// a serializer whose output is broken: it refuses every value, strings included
+    pub struct Failing;
+    impl ser::Serializer for Failing {
+        type Ok = String; type Error = NotAString;
+        type SerializeSeq = Impossible<String, NotAString>; type SerializeTuple = Impossible<String, NotAString>;
+        type SerializeTupleStruct = Impossible<String, NotAString>; type SerializeTupleVariant = Impossible<String, NotAString>;
+        type SerializeMap = Impossible<String, NotAString>; type SerializeStruct = Impossible<String, NotAString>;
+        type SerializeStructVariant = Impossible<String, NotAString>;
+        fn serialize_str(self, _v: &str) -> Result<String, NotAString> { Err(NotAString("broken output".into())) }
+        refuse!(serialize_bool(bool), serialize_i8(i8), serialize_i16(i16), serialize_i32(i32), serialize_i64(i64), serialize_u8(u8), serialize_u16(u16),
+                serialize_u32(u32), serialize_u64(u64), serialize_f32(f32), serialize_f64(f64), serialize_char(char), serialize_bytes(&[u8]));
+        fn serialize_none(self) -> Result<String, NotAString> { Err(NotAString("none".into())) }
+        fn serialize_some<T: ?Sized + Serialize>(self, _v: &T) -> Result<String, NotAString> { Err(NotAString("some".into())) }
+        fn serialize_unit(self) -> Result<String, NotAString> { Err(NotAString("unit".into())) }
+        fn serialize_unit_struct(self, _n: &'static str) -> Result<String, NotAString> { Err(NotAString("unit_struct".into())) }
+        fn serialize_unit_variant(self, _n: &'static str, _i: u32, _v: &'static str) -> Result<String, NotAString> { Err(NotAString("unit_variant".into())) }
+        fn serialize_newtype_struct<T: ?Sized + Serialize>(self, _n: &'static str, _v: &T) -> Result<String, NotAString> { Err(NotAString("newtype_struct".into())) }
+        fn serialize_newtype_variant<T: ?Sized + Serialize>(self, _n: &'static str, _i: u32, _v: &'static str, _x: &T) -> Result<String, NotAString> { Err(NotAString("newtype_variant".into())) }
+        fn serialize_seq(self, _l: Option<usize>) -> Result<Self::SerializeSeq, NotAString> { Err(NotAString("seq".into())) }
+        fn serialize_tuple(self, _l: usize) -> Result<Self::SerializeTuple, NotAString> { Err(NotAString("tuple".into())) }
+        fn serialize_tuple_struct(self, _n: &'static str, _l: usize) -> Result<Self::SerializeTupleStruct, NotAString> { Err(NotAString("tuple_struct".into())) }
+        fn serialize_tuple_variant(self, _n: &'static str, _i: u32, _v: &'static str, _l: usize) -> Result<Self::SerializeTupleVariant, NotAString> { Err(NotAString("tuple_variant".into())) }
+        fn serialize_map(self, _l: Option<usize>) -> Result<Self::SerializeMap, NotAString> { Err(NotAString("map".into())) }
+        fn serialize_struct(self, _n: &'static str, _l: usize) -> Result<Self::SerializeStruct, NotAString> { Err(NotAString("struct".into())) }
+        fn serialize_struct_variant(self, _n: &'static str, _i: u32, _v: &'static str, _l: usize) -> Result<Self::SerializeStructVariant, NotAString> { Err(NotAString("struct_variant".into())) }
+    }
+    pub struct Rec { pub human: bool }
     impl ser::Serializer for Rec {
         type Ok = String; type Error = NotAString;
         type SerializeSeq = Impossible<String, NotAString>; type SerializeTuple = Impossible<String, NotAString>;
@@ -486,6 +521,22 @@ pub fn suite_serde(ctx: &Ctx, thorough: bool) {
                 ctx.violate("C16.nonstring", "values that are not strings are refused (every visitor entry point)", json!({"value_kind": kind, "content": text}), "Ok".into(), "Err".into());
             }
         }
+    }
+    // a serialisation that fails half-way leaves nothing behind: the next value still serialises to its own string
+    {
+        use serde::Serialize;
+        ctx.eval();
+        let first = GenericPurl::<String>::from_str("pkg:t/first?k=v").unwrap();
+        let second = GenericPurl::<String>::from_str("pkg:npm/%40s/second@2").unwrap();
+        let _ = first.serialize(recser::Failing);
+        let _ = first.serialize(serde_json::value::Serializer).map(|_| ());
+        let _ = first.serialize(recser::Failing);
+        match second.serialize(recser::Rec { human: true }) {
+            Ok(t) if t == second.to_string() => {},
+            other => ctx.violate("C16.serialize", "serialising produces exactly the canonical string (after an earlier serialisation failed)", json!({"first": first.to_string(), "second": second.to_string()}), format!("{other:?}"), second.to_string()),
+        }
+        let j = serde_json::to_string(&second).ok();
+        if j != Some(format!("\"{}\"", second)) { ctx.violate("C16.serialize", "serialising produces exactly the canonical string (after an earlier serialisation failed)", json!(second.to_string()), format!("{j:?}"), second.to_string()); }
     }
     ctx.sample(json!("pkg:t/a?b=%26"));
 }
@@ -637,6 +688,21 @@ pub fn suite_eq(ctx: &Ctx, thorough: bool) {
             if let Ok(t) = guarded(|| p.to_string()) { built.push((format!("builder ns={ns:?} sub={sub:?} key={key:?}"), p, t)); }
         }
     } } }
+    // field texts that LOOK like escapes next to the texts those escapes stand for, in every component; a key set twice in
+    // another letter case next to the same key set once
+    let looks = [("%C3%A9", "é"), ("%41", "A"), ("%2F", "/"), ("a%20b", "a b"), ("%25", "%"), ("%2541", "%41"), ("x%", "x%25")];
+    for (a, b) in looks { for pos in 0..5 { for t in [a, b] {
+        let mut bd = GenericPurlBuilder::new("t".to_owned(), "n");
+        bd = match pos { 0 => bd.with_namespace(t), 1 => bd.with_name(t), 2 => bd.with_version(t), 3 => bd.with_qualifier("k", t).unwrap(), _ => bd.with_subpath(t) };
+        if let Ok(Ok(p)) = guarded(|| bd.build()) { if let Ok(s) = guarded(|| p.to_string()) { built.push((format!("builder field {pos} = {t:?}"), p, s)); } }
+    } } }
+    for (k1, k2) in [("arch", "ARCH"), ("k", "K"), ("a.b", "A.B")] {
+        for seq in [vec![(k1, "1")], vec![(k2, "1")], vec![(k1, "0"), (k2, "1")], vec![(k2, "0"), (k1, "1")], vec![(k1, "1"), (k1, "1")]] {
+            let mut bd = GenericPurlBuilder::new("t".to_owned(), "n");
+            for (k, v) in &seq { bd = bd.with_qualifier(*k, *v).unwrap(); }
+            if let Ok(Ok(p)) = guarded(|| bd.build()) { if let Ok(s) = guarded(|| p.to_string()) { built.push((format!("builder qualifiers {seq:?}"), p, s)); } }
+        }
+    }
     pairs(ctx, &built);
     // built values with '&' / '=' in qualifier values vs separate qualifiers
     let x = GenericPurlBuilder::new("t".to_owned(), "n").with_qualifier("k", "a&l=c").unwrap().build().unwrap();
@@ -726,7 +792,7 @@ pub fn suite_assumptions(ctx: &Ctx, thorough: bool) {
 
 /// C18: combined names split and join at the ecosystem separator
 pub fn suite_comb(ctx: &Ctx, thorough: bool) {
-    let mut strs = short_strings(&['a', '/', ':', 'é', 'B'], if thorough { 7 } else { 5 });
+    let mut strs = short_strings(&['a', '/', ':', 'é', 'B', 'É'], if thorough { 6 } else { 5 });
     // SCALE: long namespaces / names, separators far from both ends, many separators
     for n in thresholds(thorough) {
         if n > 70000 { continue; }
